@@ -151,6 +151,7 @@ def evaluate(n, s):
         sats = [r[0] for r in rs]
         if any(x is False for x in sats): return False, set()
         if any(x is None for x in sats): return None, None
+        if any(r[1] is None for r in rs): return True, None      # satisfied, but which primitives an undecided branch names is unknown
         docs = set()
         for r in rs: docs |= r[1]
         return True, docs
